@@ -43,6 +43,7 @@ func main() {
 	excludeF := flag.String("exclude", "", "JSON file: obligation id -> [{name,pred}] known-finding input classes")
 	fixlist := flag.String("fixlist", "", "JSON file with a list of {harness,inputs,tag}: run each concretely")
 	noIfConv := flag.Bool("noifconv", false, "disable if-conversion (state merging of pure diamonds)")
+	guardsF := flag.String("guards", "", "guarded fields: Type:Field1+Field2:mutexField:Exempt1+Exempt2;...")
 	dump := flag.Bool("dump", false, "dump SSA of entry")
 	stubs := flag.String("stubs", "", "comma-separated name=kind extra stubs")
 	flag.Parse()
@@ -150,6 +151,20 @@ func main() {
 		return
 	}
 
+	var guards []symex.Guard
+	if *guardsF != "" {
+		for _, gs := range strings.Split(*guardsF, ";") {
+			p := strings.Split(gs, ":")
+			if len(p) < 3 {
+				fatal(fmt.Errorf("bad -guards %q", gs))
+			}
+			g := symex.Guard{Type: p[0], Fields: strings.Split(p[1], "+"), Mutex: p[2]}
+			if len(p) > 3 && p[3] != "" {
+				g.Exempt = strings.Split(p[3], "+")
+			}
+			guards = append(guards, g)
+		}
+	}
 	results := map[string]interface{}{}
 	for _, entry := range strings.Split(*entries, ",") {
 		fn := target.Func(entry)
@@ -166,13 +181,16 @@ func main() {
 		if *fallbacks != "" {
 			sol.Fallbacks = strings.Split(*fallbacks, ",")
 		}
-		c := symex.Config{Unwind: *unwind, MaxPaths: *maxPaths, MaxSteps: *maxSteps, PanicMode: *panics, Fixed: fixed, Trace: *trace, Stubs: stubMap, SampleModels: *samples, Exclude: exclude, NoIfConv: *noIfConv}
+		c := symex.Config{Unwind: *unwind, MaxPaths: *maxPaths, MaxSteps: *maxSteps, PanicMode: *panics, Fixed: fixed, Trace: *trace, Stubs: stubMap, SampleModels: *samples, Exclude: exclude, NoIfConv: *noIfConv, Guards: guards}
 		if *deadline > 0 {
 			c.Deadline = time.Now().Add(time.Duration(*deadline) * time.Second)
 		}
 		t1 := time.Now()
 		in := symex.NewInterp(prog, sol, c)
 		res := in.Run(fn)
+		if len(guards) > 0 {
+			res.GuardAccessors = symex.GuardAccessors(target, guards)
+		}
 		sol.Close()
 		results[entry] = map[string]interface{}{
 			"result": res, "wall_s": time.Since(t1).Seconds(), "load_s": loadS,
